@@ -31,8 +31,11 @@ def main():
         if p['when'] == 'before':
             act(ctl, p['action'])
     mids = [p for p in todo if p['when'] == 'mid']
+    afters = [p for p in todo if p['when'] == 'after']   # right after this call returned: before whatever the backup does next
     if not mids:
         rc = subprocess.run([REAL] + args).returncode
+        for p in afters:
+            act(ctl, p['action'])
         sys.exit(rc)
     # split transfer
     src, dest = args[-2], args[-1]
@@ -53,7 +56,7 @@ def main():
         top = os.path.basename(src.rstrip('/'))
     if os.path.isfile(src):
         rc = subprocess.run([REAL] + args).returncode
-        for p in mids:
+        for p in mids + afters:
             act(ctl, p['action'])
         sys.exit(rc)
     entries = []
@@ -85,6 +88,8 @@ def main():
         if n == 0:
             for p in mids:
                 act(ctl, p['action'])
+    for p in afters:
+        act(ctl, p['action'])
     sys.exit(rc_all)
 
 
